@@ -341,6 +341,13 @@ func (a Attr) UnmarshalToType(data []byte) (any, error) {
 	case AttrTypeTime:
 		var t time.Time
 		err = json.Unmarshal(data, &t)
+
+		if err == nil {
+			// The parser lets through some times that cannot be written
+			// back (an offset of 24 hours): they are not valid values.
+			_, err = t.MarshalJSON()
+		}
+
 		v = t
 
 		if a.Nullable {
